@@ -122,12 +122,28 @@ def total_sort(fx, f, t, name, recv_ty):
         return False
     if name.endswith("_by_key"):
         # key closure: fn(&closure, &Elem) -> K ; total iff K mentions every field of the element struct
-        m = re.search(r"(mos(?:_core)?::[A-Za-z0-9_:]+)", g.locals[2]["ty"])
-        adt = fx.adts.get(m.group(1)) if m else None
+        ety = g.locals[2]["ty"]
+        while ety.startswith("&"):
+            ety = ety[1:].lstrip()
+            if ety.startswith("'"):
+                ety = ety.split(" ", 1)[1] if " " in ety else ety
+        read = fields_read(g, [2])[2]
+        if ety.startswith("("):
+            # a tuple element: the key must read every component (top-level arity)
+            depth, arity = 0, 1
+            for ch in ety[1:-1]:
+                if ch in "(<[":
+                    depth += 1
+                elif ch in ")>]":
+                    depth -= 1
+                elif ch == "," and depth == 0:
+                    arity += 1
+            return {str(i) for i in range(arity)} <= read
+        adt = fx.adts.get(ety.split("<")[0])
         if not adt or adt["kind"] != "Struct":
             return False
         allf = {x["name"] for x in adt["variants"][0]["fields"]}
-        return allf <= fields_read(g, [2])[2]
+        return allf <= read
     # comparator closure on (key, value) entries of a hash *map*: comparing the keys (.0) only is total because keys are unique
     if "hash::map::" not in recv_ty or g.argc != 3:
         return False
